@@ -2,8 +2,13 @@ package c07
 
 import (
 	"bytes"
+	"encoding/json"
 	"fmt"
+	"io/ioutil"
 	"math"
+	"net/http"
+	"net/http/httptest"
+	"net/url"
 	"runtime"
 	"sort"
 	"strings"
@@ -18,6 +23,7 @@ import (
 	"github.com/kubewharf/kubegateway/pkg/ratelimiter/util"
 
 	gatewayfake "github.com/kubewharf/kubegateway/pkg/client/kubernetes/fake"
+	"github.com/kubewharf/kubegateway/pkg/ratelimiter/endpoints/dispather"
 
 	"verifharness/bed"
 	"verifharness/vkit"
@@ -56,6 +62,7 @@ func TestCheck(t *testing.T) {
 		r.Require(r.Counter("sys_burst_only_changes") >= 100 && r.Counter("sys_burst_only_lowered") >= 40 && r.Counter("sys_token_bucket_answers_after_burst_only_change") >= 300,
 			"too few changes of the global burst alone (qps unchanged) followed by reports")
 		r.Require(r.Counter("sys_histories_on_the_api_backed_store") >= 100 && r.Counter("sys_schemas_with_limit_near_int32_range") >= 40, "too few histories on the API-backed store / with very large limits")
+		r.Require(r.Counter("sys_histories_over_http") >= 100 && r.Counter("sys_reports_over_http") >= 3000, "too few reports delivered over HTTP through the real dispatcher")
 		r.Require(r.Counter("sys_report_errors") == 0, "reports were refused by the server (harness/server set-up problem)")
 	})
 }
@@ -448,11 +455,12 @@ type history struct {
 	dead     bool // a violation was found: stop (later answers would only repeat it)
 	nontriv  bool
 
-	apiStore   bool     // the server keeps its conditions in the API-backed store
-	realIDs    bool     // identities as gateways really have them (ip:port, IPv6, dots, upper case, long, non-ASCII)
-	extras     []string // gateways that heartbeat to this server but never report on this upstream (they count as clients)
-	other      string   // a second upstream on the same server (own schemas), used by the same instances
-	deferApply bool     // changeLimit only prepares the change (reportConcurrently delivers it while reports are in flight)
+	front      *httptest.Server // reports go over HTTP through the server's real dispatcher
+	apiStore   bool             // the server keeps its conditions in the API-backed store
+	realIDs    bool             // identities as gateways really have them (ip:port, IPv6, dots, upper case, long, non-ASCII)
+	extras     []string         // gateways that heartbeat to this server but never report on this upstream (they count as clients)
+	other      string           // a second upstream on the same server (own schemas), used by the same instances
+	deferApply bool             // changeLimit only prepares the change (reportConcurrently delivers it while reports are in flight)
 	pending    *proxyv1alpha1.UpstreamCluster
 	pendingOld *schema
 }
@@ -460,7 +468,10 @@ type history struct {
 // sc: scenario class; histories on the API-backed (write-through) store are a class of their own.
 func (h *history) sc(base string) string {
 	if h.apiStore {
-		return base + "/api-backed-store"
+		base += "/api-backed-store"
+	}
+	if h.front != nil {
+		base += "/over-http"
 	}
 	return base
 }
@@ -534,10 +545,44 @@ func (h *history) heartbeatAll() {
 }
 
 // send delivers one report; returns the per-schema records with the answers filled in (nil on a refused report).
+// sendHTTP delivers the report the way gateways do: PUT .../ratelimitconditions/<upstream>.<instance>/status on the HTTP front
+// the limiter server mounts (the real dispatcher, pkg/ratelimiter/endpoints/dispather), JSON in, JSON out.
+func (h *history) sendHTTP(cond *proxyv1alpha1.RateLimitCondition) (*proxyv1alpha1.RateLimitCondition, error) {
+	body, err := json.Marshal(cond)
+	if err != nil {
+		return nil, err
+	}
+	req, err := http.NewRequest("PUT", h.front.URL+"/apis/proxy.kubegateway.io/v1alpha1/ratelimitconditions/"+url.PathEscape(cond.Name)+"/status", bytes.NewReader(body))
+	if err != nil {
+		return nil, err
+	}
+	req.Header.Set("Content-Type", "application/json")
+	resp, err := h.front.Client().Do(req)
+	if err != nil {
+		return nil, err
+	}
+	defer resp.Body.Close()
+	data, _ := ioutil.ReadAll(resp.Body)
+	if resp.StatusCode != http.StatusOK {
+		return nil, fmt.Errorf("HTTP %d: %s", resp.StatusCode, strings.TrimSpace(string(data)))
+	}
+	ans := &proxyv1alpha1.RateLimitCondition{}
+	if err := json.Unmarshal(data, ans); err != nil {
+		return nil, err
+	}
+	return ans, nil
+}
+
 func (h *history) send(w *gw, cond *proxyv1alpha1.RateLimitCondition, recs []reportRec) []reportRec {
 	var ans *proxyv1alpha1.RateLimitCondition
 	var err error
-	p := vkit.Safely(func() { ans, err = h.srv.Limiter.UpdateRateLimitConditionStatus(h.upstream, cond) })
+	var p interface{}
+	if h.front != nil {
+		ans, err = h.sendHTTP(cond)
+		h.r.Count("sys_reports_over_http", 1)
+	} else {
+		p = vkit.Safely(func() { ans, err = h.srv.Limiter.UpdateRateLimitConditionStatus(h.upstream, cond) })
+	}
 	if p != nil {
 		h.r.Violation("C07/system/panic", fmt.Sprintf("UpdateRateLimitConditionStatus panicked: %v", p), h.witness(map[string]interface{}{"report": recs, "panic": fmt.Sprint(p)}))
 		return nil
@@ -643,7 +688,7 @@ func (h *history) consistency(after record, w *gw, rc reportRec, s *schema) {
 	}
 	if got := after.per[w.id][rc.Schema]; got != int64(rc.Answer) {
 		h.dead = true
-		h.r.Violation("C07/system/record-differs-from-answer", fmt.Sprintf("schema %s: instance %s was answered %d but %d is on record", rc.Schema, w.id, rc.Answer, got), h.witness(nil))
+		h.r.Violation("C07/"+h.sc("system")+"/record-differs-from-answer", fmt.Sprintf("schema %s: instance %s was answered %d but %d is on record", rc.Schema, w.id, rc.Answer, got), h.witness(nil))
 	}
 	if after.status[rc.Schema] != after.sum[rc.Schema] {
 		h.dead = true
@@ -1102,6 +1147,13 @@ func system(r *vkit.R) {
 		}
 		h.srv = bed.NewLimiterServer(o)
 		h.scenario = h.sc("system")
+		if i%5 == 3 { // the reports of this history go over HTTP, through the dispatcher the limiter server mounts
+			h.front = httptest.NewServer(dispather.WithLimiterDispatcher(http.NotFoundHandler(), h.srv.Limiter))
+			defer h.front.Close()
+			h.realIDs = false // plain identities: what a condition name may look like in a URL path is not this property's subject
+			r.Count("sys_histories_over_http", 1)
+			h.scenario = h.sc("system")
+		}
 		if h.realIDs {
 			r.Count("sys_histories_with_realistic_identities", 1)
 		}
